@@ -4,6 +4,7 @@
 -/
 import Upnp.Lemmas.C04
 import Upnp.Lemmas.C03Step
+import Upnp.Lemmas.C03Present
 set_option linter.unusedSectionVars false
 set_option linter.unusedSimpArgs false
 set_option linter.unusedVariables false
@@ -268,5 +269,63 @@ theorem unsee_notif_none (s : Tracker σ) (m : Msg σ) (hk : m.kind = .byebye) (
   cases hu : m.udn <;> cases hty : m.ty <;> simp [hu, hty] at hb ⊢
   all_goals (split <;> rfl)
 
+
+/-! ### for the direct notification theorems of `Props/C04.lean` -/
+
+/-- the "something changed" condition of the text, on the device record `d` the tracker holds for the sender AFTER its
+    purge at the message's timestamp (`none`: the device is new — unknown or lapsed): the type is new for the device, or
+    the location is a changed one (`location_changed_spec`), or a non-volatile header differs from the previous message
+    `prev d` of that kind and type (`same_headers_differ_spec`) -/
+def Changed (ipv : σ → Option Nat) (skip : σ → Bool) (m : Msg σ) (loc ty : σ) (prev : Dev σ → Option (Hdrs σ))
+    (d? : Option (Dev σ)) : Prop :=
+  match d? with
+  | none => True
+  | some d =>
+    (get? d.search ty = none ∧ get? d.adv ty = none) ∨ locChanged ipv d.locs loc = true ∨
+    ∃ cur, prev d = some cur ∧ headersDiffer skip cur m.hdrs = true
+
+theorem sighting_fields' (m : Msg σ) (u loc ty : σ) (hw : m.wf = true) (hs : m.sighting? = some (u, loc))
+    (hty : m.ty = some ty) :
+    m.udn = some u ∧ m.loc = some loc ∧ m.locOk = true ∧ m.udnHdr = some u := by
+  obtain ⟨hu, hl, hk⟩ := sighting_fields m u loc hs
+  have hlo : m.locOk = true := by
+    unfold Msg.sighting? at hs
+    simp only [hk, if_false, hu, hty, hl] at hs
+    cases hlo : m.locOk <;> simp [hlo] at hs
+    rfl
+  exact ⟨hu, hl, hlo, by simp [Msg.wf, hu] at hw; exact hw.1.1⟩
+
+/-- what `refreshed` holds, in terms of the purged state -/
+theorem changed_bool_iff (s : Tracker σ) (hi : Inv s) (m : Msg σ) (u loc ty : σ) (searchSide : Bool) :
+    ((!(contains s.devices u) ||
+       (!(contains (refreshed (purge s m.ts) u (m.ts + m.maxAge)).adv ty) &&
+        !(contains (refreshed (purge s m.ts) u (m.ts + m.maxAge)).search ty)) ||
+       locChanged ipv (refreshed (purge s m.ts) u (m.ts + m.maxAge)).locs loc ||
+       (match get? (if searchSide then (refreshed (purge s m.ts) u (m.ts + m.maxAge)).search
+                    else (refreshed (purge s m.ts) u (m.ts + m.maxAge)).adv) ty with
+        | some cur => headersDiffer skip cur m.hdrs
+        | none => false)) = true) ↔
+    Changed ipv skip m loc ty (fun d => get? (if searchSide then d.search else d.adv) ty)
+      (get? (purge s m.ts).devices u) := by
+  unfold Changed refreshed
+  cases hg : get? (purge s m.ts).devices u with
+  | none => simp [newDev, PyDict.contains, get?]
+  | some d =>
+    obtain ⟨d0, h0, _, _⟩ := purge_get?_inv hi m.ts u d hg
+    have hc : contains s.devices u = true := by simp [PyDict.contains, h0]
+    simp only [hc, Bool.not_true, Bool.false_or]
+    cases ha : get? d.adv ty <;> cases hsr : get? d.search ty <;> cases hl : locChanged ipv d.locs loc <;>
+      cases searchSide <;> simp [PyDict.contains, ha, hsr, hl]
+
+theorem src_ite (b : Bool) :
+    ((if b = true then Source.searchChanged else Source.searchAlive) = .searchChanged ∨
+     (if b = true then Source.searchChanged else Source.searchAlive) = .searchAlive) ∧
+    ((if b = true then Source.searchChanged else Source.searchAlive) = .searchChanged ↔ b = true) := by
+  cases b <;> simp
+
+theorem notif_ite (b : Bool) (n : Notif σ) :
+    ((if b = true then some n else none) = some n ∨ (if b = true then some n else none) = none) ∧
+    ((if b = true then some n else none).isSome = true ↔ b = true) := by
+  cases b <;> simp
 
 end Upnp.C04
